@@ -194,3 +194,115 @@ class Scribble:
         except (ValueError, TypeError, AttributeError):
             pass
         return v
+
+
+# ---- "dressings": the same behaviour offered to the library as a differently shaped callable or return value.
+# The properties quantify over ALL callables; a library that inspects the callable (signature, class, keyword
+# names) or the type of what it returns must not change the result.  The model side ignores the dressing.
+RULE_DRESSINGS = ['starargs', 'nrest', 'kwopts', 'defaults', 'partial', 'method', 'lambda',
+                  'sub:BaseRule', 'sub:NKSRule', 'sub:BinaryRule', 'sub:TotalisticRule',
+                  'ret0d', 'retnp', 'retpyint']
+PRED_DRESSINGS = ['starargs', 'kwopts', 'defaults', 'partial', 'method', 'lambda']
+
+
+def _ret_convert(how, v):
+    if how == 'ret0d':
+        return np.array(v)                      # zero-dimensional array: np.isscalar is False, int(v) works
+    if how == 'retnp':
+        try:
+            return np.int64(v) if isinstance(v, (int, np.integer)) and not isinstance(v, bool) and -2 ** 63 <= int(v) < 2 ** 63 else v
+        except Exception:
+            return v
+    if how == 'retpyint':
+        return int(v) if isinstance(v, (np.integer,)) else v
+    return v
+
+
+def dress(f, how):
+    """f: a rule callable taking (neighbourhood, cell, timestep) positionally.  Returns a callable with the
+    same behaviour and the shape named by `how` (None / '' = f itself)."""
+    if not how:
+        return f
+    if how in ('ret0d', 'retnp', 'retpyint'):
+        def converted(nbhd_arg, cell_arg, step_arg):
+            return _ret_convert(how, f(nbhd_arg, cell_arg, step_arg))
+        return converted
+    if how == 'starargs':
+        def g(*args):
+            return f(*args)
+        return g
+    if how == 'nrest':
+        def g(first_arg, *rest):
+            return f(first_arg, *rest)
+        return g
+    if how == 'kwopts':
+        def g(nbhd_arg, cell_arg, step_arg, **opts):
+            return f(nbhd_arg, cell_arg, step_arg)
+        return g
+    if how == 'defaults':
+        def g(nbhd_arg, cell_arg=None, step_arg=None, scale=1):
+            return f(nbhd_arg, cell_arg, step_arg)
+        return g
+    if how == 'partial':
+        import functools
+        return functools.partial(f)
+    if how == 'lambda':
+        return lambda *a: f(*a)
+    if how == 'method':
+        class Holder:
+            def apply(self, nbhd_arg, cell_arg, step_arg):
+                return f(nbhd_arg, cell_arg, step_arg)
+        return Holder().apply
+    if how.startswith('sub:'):
+        import cellpylib as cpl            # the tree under test (the driver put it first on sys.path)
+        base = how[4:]
+        if base == 'BaseRule':
+            class UserRule(cpl.BaseRule):
+                def __call__(self, nbhd_arg, cell_arg, step_arg):
+                    return f(nbhd_arg, cell_arg, step_arg)
+            return UserRule()
+        if base == 'NKSRule':
+            class UserNKS(cpl.NKSRule):
+                def __call__(self, nbhd_arg, cell_arg, step_arg):
+                    return f(nbhd_arg, cell_arg, step_arg)
+            return UserNKS(30)
+        if base == 'BinaryRule':
+            class UserBinary(cpl.BinaryRule):
+                def __call__(self, nbhd_arg, cell_arg, step_arg):
+                    return f(nbhd_arg, cell_arg, step_arg)
+            return UserBinary(90)
+        if base == 'TotalisticRule':
+            class UserTotalistic(cpl.TotalisticRule):
+                def __call__(self, nbhd_arg, cell_arg, step_arg):
+                    return f(nbhd_arg, cell_arg, step_arg)
+            return UserTotalistic(3, 777)
+    raise ValueError('unknown dressing %r' % (how,))
+
+
+def dress_pred(p, how):
+    """p: a timesteps predicate taking (history, t) positionally; same idea as dress()."""
+    if not how:
+        return p
+    if how == 'starargs':
+        def g(*args):
+            return p(*args)
+        return g
+    if how == 'kwopts':
+        def g(history_arg, count_arg, **opts):
+            return p(history_arg, count_arg)
+        return g
+    if how == 'defaults':
+        def g(history_arg, count_arg=None, limit=None):
+            return p(history_arg, count_arg)
+        return g
+    if how == 'partial':
+        import functools
+        return functools.partial(p)
+    if how == 'lambda':
+        return lambda *a: p(*a)
+    if how == 'method':
+        class Holder:
+            def keep_going(self, history_arg, count_arg):
+                return p(history_arg, count_arg)
+        return Holder().keep_going
+    raise ValueError('unknown predicate dressing %r' % (how,))
